@@ -106,6 +106,14 @@ func (n *ncs) record(r ncsReq) { n.reqs = append(n.reqs, r) }
 func (n *ncs) RoundTrip(req *http.Request) (*http.Response, error) {
 	b, _ := io.ReadAll(req.Body)
 	n.record(ncsReq{req.URL.String(), string(b)})
+	if k, ok := strings.CutPrefix(n.mode, "down-"); ok {
+		// the credit service is down for the first k posts, then back
+		var cnt int
+		fmt.Sscanf(k, "%d", &cnt)
+		if len(n.reqs) <= cnt {
+			return nil, fmt.Errorf("dial tcp: connection refused")
+		}
+	}
 	switch n.mode {
 	case "error":
 		return nil, fmt.Errorf("dial tcp: connection refused")
@@ -358,7 +366,7 @@ func init() {
 			}
 			st := explore.Explore(func(ch vrt.Chooser) explore.Outcome {
 				cp := append([]sub{}, subs...)
-				return runReceipts(p.Cap, p.Mode, cp, false, ch)
+				return runReceipts(p.Cap, p.Mode, cp, p.Seq, ch)
 			}, explore.Config{Bound: p.Bound})
 			add(st, fmt.Sprintf("cap=%d service=%s concurrent %v", p.Cap, p.Mode, p.Subs))
 		}
@@ -388,6 +396,16 @@ func init() {
 				jobs = append(jobs, check.Job{Kind: "c19", Name: "IN:receipt-triples-cap1", Params: p})
 			}
 			b = 3
+		}
+		// an outage of the credit service (10 / 20 failed posts in a row), then it is back:
+		// what is accepted afterwards is forwarded as ever
+		for _, k := range []int{10, 20} {
+			var subs []string
+			for i := 0; i < k+3; i++ {
+				subs = append(subs, []string{"a:valid", "b:valid-2"}[i%2])
+			}
+			po, _ := json.Marshal(c19Params{Cap: 128, Mode: fmt.Sprintf("down-%d", k), Subs: subs, Seq: true})
+			jobs = append(jobs, check.Job{Kind: "c19", Name: "IN:receipt-outage-then-recovery", Params: po})
 		}
 		p1, _ := json.Marshal(c19Params{Cap: 1, Mode: "200", Pairs: true})
 		p1f, _ := json.Marshal(c19Params{Cap: 1, Mode: "never", Pairs: true, Fill: true})
